@@ -193,7 +193,7 @@ def run_driver(requests: List[dict], timeout: int = 3600) -> List[dict]:
     p = subprocess.run([str(DRIVER)], input=data, capture_output=True, text=True, timeout=timeout)
     if p.returncode != 0:
         raise Infra(f"driver exited {p.returncode}: {p.stderr[-2000:]}")
-    lines = [l for l in p.stdout.splitlines() if l.strip()]
+    lines = [l for l in p.stdout.split("\n") if l.strip()]  # not splitlines(): U+2028/U+0085/VT/FF inside JSON strings are not line ends
     if len(lines) != len(requests):
         raise Infra(f"driver returned {len(lines)} lines for {len(requests)} requests: {p.stderr[-500:]}")
     return [json.loads(l) for l in lines]
